@@ -70,7 +70,15 @@ func TestC06Query(t *testing.T) {
 			bt := batchTrace{Events: []map[string]any{}}
 			for i := 0; i < n; i++ {
 				var e *mocrelay.Event
-				op := rapid.IntRange(0, 19).Draw(t, fmt.Sprintf("b%d.%d.op", b, i))
+				op := rapid.IntRange(0, 20).Draw(t, fmt.Sprintf("b%d.%d.op", b, i))
+				if op == 20 {
+					for _, be := range cfg.DrawBurst(t) {
+						batch = append(batch, be)
+						bt.Events = append(bt.Events, gen.Brief(be))
+					}
+					col.Label("batch:version-burst")
+					continue
+				}
 				switch {
 				case op < 10 || len(world.Events) == 0:
 					e = cfg.DrawEvent(t)
